@@ -342,8 +342,16 @@ def check_encoders(ctx, cfg):
             # case selection under the SIMD encoder: the UPPER = true arm calls the *_upper function
             names = sorted(c.fn.split("::")[-1] for c in fh)
             ctx.ob("C14.H6", "hex_encode#simd_case", names == ["hex_encode", "hex_encode_upper"], "faster_hex entry points used: %s (one per case)" % names, at=b["at"], cfg=cfg)
+            # optimiser hints about the SIMD encoder's result (`unwrap_unchecked`, or `unreachable_unchecked` under `is_err`): each one assumes
+            # only "the encoder did not fail", which is the capacity precondition checked at hex_encode's call sites - none assumes anything else
             uu = [c for c in a.calls if c.fn.endswith("unwrap_unchecked")]
-            ctx.ob("C14.H5", "hex_encode#unwrap_unchecked", len(uu) == len(fh), "unwrap_unchecked on the encoder result relies on the same capacity precondition (checked at hex_encode's call sites): %d sites" % len(uu), at=b["at"], cfg=cfg)
+            rets = [c.ret for c in fh]
+            uu_ok = all(c.args and c.args[0] in rets for c in uu)
+            hints = ub_hints(a)
+            fhb = {c.bb for c in fh}
+            h_ok = all(any(isinstance(f_, tuple) and len(f_) == 3 and f_[0] == "b" and isinstance(f_[1], tuple) and f_[1][0] == "is_ok" and f_[2] is False for f_ in (fs_ or ()))
+                       and not _reach_avoiding(a, 0, c.bb, fhb) for c, fs_ in hints)
+            ctx.ob("C14.H5", "hex_encode#unwrap_unchecked", uu_ok and h_ok, "optimiser hints on the encoder result assume only that the encoder did not fail (the capacity precondition checked at hex_encode's call sites): %d unwrap_unchecked on an encoder result: %s; %d unreachable hint(s) under `result is an error`: %s" % (len(uu), uu_ok, len(hints), h_ok), at=b["at"], cfg=cfg)
     # with faster-hex on, the table encoder is optional (a build that never calls it may cfg it out): nothing refers to it then, nothing to judge
     b = ctx.db(cfg).get("hex_encode_fallback") if cfg.startswith("F2") else ctx.body(cfg, "hex_encode_fallback", "C14.H5")
     if b is None and cfg.startswith("F2"):
@@ -415,8 +423,11 @@ def check_encoder_writes(ctx, cfg):
         pipe, cv = fes[0].args[0], fes[0].args[1]
         shape = isinstance(pipe, tuple) and len(pipe) == 5 and pipe[:3] == ("V", "iter", "zip")
         d_ok = s_ok = False
+        jd = 0
         if shape:
             d, s_ = pipe[3], pipe[4]
+            if not (isinstance(d, tuple) and len(d) == 5 and d[:3] == ("V", "iter", "chunks_exact")) and isinstance(s_, tuple) and len(s_) == 5 and s_[:3] == ("V", "iter", "chunks_exact"):
+                d, s_, jd = s_, d, 1   # src.iter().zip(dst.chunks_exact_mut(2)): the same pairing
             d_ok = isinstance(d, tuple) and len(d) == 5 and d[:3] == ("V", "iter", "chunks_exact") and d[3][0] == "P" and d[3][1] == ("arg", 2) and not d[3][2].t and d[4] == Poly.const(2)
             if isinstance(s_, tuple) and len(s_) == 5 and s_[:3] == ("V", "iter", "slice"):
                 s_ = s_[3]
@@ -426,8 +437,8 @@ def check_encoder_writes(ctx, cfg):
             cb = ctx.db(cfg).by_path.get(cv[1][1])
             ca = ctx.analysis(cfg, cb["key"])
             ds = [_digit_store(x) for x in ca.stores]
-            slot = ("obj", ("proj", ("proj", ("V", "arg", 2), (0,))))
-            byte = Poly.atom(("cell", (("obj", ("proj", ("proj", ("V", "arg", 2), (1,)))), ())))
+            slot = ("obj", ("proj", ("proj", ("V", "arg", 2), (jd,))))
+            byte = Poly.atom(("cell", (("obj", ("proj", ("proj", ("V", "arg", 2), (1 - jd,)))), ())))
             good = len(ca.stores) == 2 and all(x is not None for x in ds)
             if good:
                 by = {x[1]: x for x in ds}
@@ -460,13 +471,18 @@ def check_encoder_writes(ctx, cfg):
             byte_off = E(("elemoff", (tag0, 0)))
         elif isinstance(pipe, tuple) and len(pipe) == 5 and pipe[:3] == ("V", "iter", "zip") and not lp.backward:
             # for (s, &c) in dst.chunks_exact_mut(2).zip(src): s[0], s[1]
+            # (either way round: the k-th item pairs the k-th piece with the k-th byte whichever side drives the zip)
             form = "dst.chunks_exact_mut(2).zip(src)"
-            d = pipe[3]
-            d_ok = isinstance(d, tuple) and len(d) == 5 and d[:3] == ("V", "iter", "chunks_exact") and d[3][0] == "P" and d[3][1] == ("arg", 2) and not d[3][2].t and d[4] == Poly.const(2)
-            s_ok = d_ok and src_ok(strip(pipe[4]))
-            slot = ("off", ("arg", 2), E(("elemoff", (tag0, 0))))
+            is_ce = lambda d: isinstance(d, tuple) and len(d) == 5 and d[:3] == ("V", "iter", "chunks_exact")
+            jd = 0 if is_ce(pipe[3]) or not is_ce(pipe[4]) else 1
+            if jd == 1:
+                form = "src.iter().zip(dst.chunks_exact_mut(2))"
+            d = pipe[3 + jd]
+            d_ok = is_ce(d) and d[3][0] == "P" and d[3][1] == ("arg", 2) and not d[3][2].t and d[4] == Poly.const(2)
+            s_ok = d_ok and src_ok(strip(pipe[4 - jd]))
+            slot = ("off", ("arg", 2), E(("elemoff", (tag0, jd))))
             want = {0: (slot, (("idx", ("I", Poly.const(0))),)), 1: (slot, (("idx", ("I", Poly.const(1))),))}
-            byte_off = E(("elemoff", (tag0, 1)))
+            byte_off = E(("elemoff", (tag0, 1 - jd)))
         if form is not None:
             sts = [x for x in a.stores if x["site"][0] in lp.blocks]
             ds = [_digit_store(x) for x in sts]
